@@ -21,6 +21,8 @@ var (
 	MainBus *bus.Bus
 	Main    *cpu65c816.CPU
 	Alt     *cpualt.CPU
+	// AltCopy is made with InitFrom from the fully set-up Alt (it shares Alt's memory devices).
+	AltCopy *cpualt.CPU
 	// Sys is an emulator.System whose bus is a copy of MainBus (one RAM over MainMem, whole range).
 	Sys *emulator.System
 )
@@ -37,6 +39,8 @@ func init() {
 	Alt.InitFrom(&cpualt.CPU{})
 	Alt.Bus.AttachReader(0x000000, 0xFFFFFF, func(addr uint32) uint8 { return AltMem[addr] })
 	Alt.Bus.AttachWriter(0x000000, 0xFFFFFF, func(addr uint32, val uint8) { AltMem[addr] = val })
+	AltCopy = &cpualt.CPU{}
+	AltCopy.InitFrom(Alt)
 	Sys = &emulator.System{}
 	Sys.Bus = *MainBus
 	Sys.CPU.Init(&Sys.Bus)
